@@ -218,6 +218,18 @@ pub fn exec(rest: &str, out: &mut Out) -> (String, bool) {
         let t2 = v.print_with(o.clone()).to_string();
         out.oracle(t2 == text, "preset method = print_with(preset)", || cps(&t2));
     }
+    // the other `Print` implementors print the same text: a reference to the value, and the typed
+    // scalar / object behind it (Print for bool, NumberBuf, String, Object via PrintWithSize)
+    {
+        let by_ref = (&v).print_with(o.clone()).to_string();
+        let typed = match &v {
+            Value::Boolean(b) => Some(b.print_with(o.clone()).to_string()),
+            Value::Number(n) => Some(n.print_with(o.clone()).to_string()),
+            Value::String(t) => Some(t.print_with(o.clone()).to_string()),
+            _ => None,
+        };
+        out.oracle(by_ref == text && typed.as_ref().map_or(true, |t| *t == text), "Print for &Value and for the typed scalar = Print for Value", || format!("{:?} {:?}", by_ref, typed));
+    }
     // content only: the same value built through another route (heap-backed buffers) prints alike
     {
         let vr = crate::ord::rebuilt(&v);
@@ -436,6 +448,34 @@ pub fn gen(out: &mut Out, thorough: bool, focus: &str) {
         }
         out.count_n("stream_special_at_every_offset", n);
         out.exhaustive.push("strings of every length 1..40 (and 47..49, 63..65, 127..129) with one of 9 special characters at every offset (quote, backslash, LF, U+001F, DEL, NUL, é, U+2028, non-BMP), plain otherwise; value and key position".into());
+    }
+    // wide flat containers: arrays and objects of EVERY length 0..=40 under item limits at, below and
+    // above their length and width limits around their one-line width (a limit comparison, a chunked
+    // separator writer or a small-size fast path is decided at one length)
+    {
+        let mut n = 0u64;
+        for len in 0..=40usize {
+            let arr = format!("[{}]", (0..len).map(|i| format!("#{:x};", 0x30 + (i % 10))).collect::<Vec<_>>().join(""));
+            let obj = format!("{{{}}}", (0..len).map(|i| format!("k{:x};{}", 0x61 + (i % 26), if i % 4 == 3 { "[]".to_string() } else { "t".to_string() })).collect::<Vec<_>>().join(""));
+            let mut lims: Vec<String> = vec!["-".into(), "A".into(), format!("I{}", len.saturating_sub(1)), format!("I{}", len), format!("I{}", len + 1)];
+            for w in [2 * len, 3 * len, 3 * len + 1, 3 * len + 2, 3 * len + 3, 4 * len + 2, 7 * len, 7 * len + 1, 7 * len + 2, 9 * len + 3] { lims.push(format!("W{}", w)); }
+            lims.push(format!("X{}.{}", len, 3 * len + 2));
+            lims.push(format!("X{}.{}", len + 1, 3 * len + 1));
+            for (li, lim) in lims.iter().enumerate() {
+                for (vi, v) in [&arr, &obj].iter().enumerate() {
+                    if len > 20 && (li + vi + len) % 2 == 1 { continue; }
+                    let mut f = base.clone();
+                    f[6] = lim.clone();
+                    f[14] = lim.clone();
+                    if (len + li) % 3 == 0 { f[0] = "t1".into(); }
+                    l(format!("print {} {}", f.join(","), v), out);
+                    n += 1;
+                }
+            }
+            for p in ["pretty", "compact", "inline"] { l(format!("print {} [{}{}]", p, arr, obj), out); n += 1; }
+        }
+        out.count_n("stream_wide_flat_containers", n);
+        out.exhaustive.push("flat arrays and objects of every length 0..=40 under item limits len-1 / len / len+1, ten width limits around their one-line widths and two item-or-width limits; nested in an array under the three presets".into());
     }
     // deep expanded chains x indent units, and large padding values: indentation and padding are
     // written by loops/chunks whose size boundaries (16, 32, 64, …) a shallow value never reaches
